@@ -447,6 +447,7 @@ namespace pika::threads::detail {
             else if (num_thread >= num_queues_) { num_thread %= num_queues_; }
 
             std::unique_lock<pu_mutex_type> l;
+            PIKA_VERIF_EXIT("el.unl", static_cast<scheduler_base const*>(this), l.owns_lock() ? static_cast<std::uint64_t>(l.mutex() - &pu_mtxs_[0]) : std::uint64_t(255));
             num_thread = select_active_pu(l, num_thread);
 
             data.schedulehint.mode = execution::thread_schedule_hint_mode::thread;
@@ -589,6 +590,7 @@ namespace pika::threads::detail {
             else if (num_thread >= num_queues_) { num_thread %= num_queues_; }
 
             std::unique_lock<pu_mutex_type> l;
+            PIKA_VERIF_EXIT("el.unl", static_cast<scheduler_base const*>(this), l.owns_lock() ? static_cast<std::uint64_t>(l.mutex() - &pu_mtxs_[0]) : std::uint64_t(255));
             num_thread = select_active_pu(l, num_thread, allow_fallback);
 
             auto* thrdptr = get_thread_id_data(thrd);
@@ -648,6 +650,7 @@ namespace pika::threads::detail {
             else if (num_thread >= num_queues_) { num_thread %= num_queues_; }
 
             std::unique_lock<pu_mutex_type> l;
+            PIKA_VERIF_EXIT("el.unl", static_cast<scheduler_base const*>(this), l.owns_lock() ? static_cast<std::uint64_t>(l.mutex() - &pu_mtxs_[0]) : std::uint64_t(255));
             num_thread = select_active_pu(l, num_thread, allow_fallback);
 
             if (priority == execution::thread_priority::high_recursive ||
@@ -685,6 +688,7 @@ namespace pika::threads::detail {
             std::int64_t count = 0;
             if (std::size_t(-1) != num_thread)
             {
+                PIKA_VERIF_SCOPE("el.qlen", static_cast<scheduler_base const*>(this), (static_cast<std::uint64_t>(num_thread) << 32) | static_cast<std::uint32_t>((num_thread < num_high_priority_queues_ ? high_priority_queues_[num_thread].data_->get_queue_length() : 0) + (num_thread == num_queues_ - 1 ? low_priority_queue_.get_queue_length() : 0) + queues_[num_thread].data_->get_queue_length()));
                 PIKA_ASSERT(num_thread < num_queues_);
 
                 if (num_thread < num_high_priority_queues_)
@@ -1072,6 +1076,10 @@ namespace pika::threads::detail {
                 }
             }
 
+            PIKA_VERIF_POST("el.sched", static_cast<scheduler_base const*>(this), reinterpret_cast<std::uintptr_t>(static_cast<scheduler_base const*>(this)), (std::uint64_t(num_queues_) << 8) | (has_scheduler_mode(scheduler_mode::enable_elasticity) ? 1 : 0) | (has_scheduler_mode(scheduler_mode::enable_stealing) ? 2 : 0));
+            PIKA_VERIF_POST("el.qmap", queues_[num_thread].data_, num_thread, reinterpret_cast<std::uintptr_t>(static_cast<scheduler_base const*>(this)));
+            if (num_thread < num_high_priority_queues_) PIKA_VERIF_POST("el.qmap", high_priority_queues_[num_thread].data_, num_thread | (1u << 16), reinterpret_cast<std::uintptr_t>(static_cast<scheduler_base const*>(this)));
+            if (num_thread == num_queues_ - 1) PIKA_VERIF_POST("el.qmap", &low_priority_queue_, num_thread | (2u << 16), reinterpret_cast<std::uintptr_t>(static_cast<scheduler_base const*>(this)));
             // forward this call to all queues etc.
             if (num_thread < num_high_priority_queues_)
             {
